@@ -144,7 +144,8 @@ def run_update(root, has_remote, R, L, T, v, rnd):
     _git(local, "commit", "-q", "--allow-empty", "-m", "start")
     try:
         rr.update(vs)
-    except exceptions.SystemSetupError:
+    except exceptions.RallyError:
+        # SystemSetupError "Cannot find ..." or InvalidSyntax for a version string that is no version: an explicit error
         return dict(NONE)
     cur = _git(local, "rev-parse", "--abbrev-ref", "HEAD")
     if cur != "HEAD":
@@ -232,6 +233,8 @@ def run(ctx, out):
         st["B"] = [{k: (str(x) if isinstance(x, str) else x) for k, x in dict(b).items()} for b in sorted(st["B"], key=repr)]
         st["v"] = to_json(st["v"])
         states.append(st)
+    # TLC's dump order depends on worker scheduling: make the order canonical so that every random choice is reproducible
+    states.sort(key=lambda st: (repr(st["v"]), repr(st["B"])))
     if not ctx.quick and len(states) > 400000:
         # keep the run within budget: deterministic sample of the exhaustive table
         states = [s for i, s in enumerate(states) if i % 3 == ctx.seed % 3]
